@@ -71,11 +71,11 @@ theorem cextAffinityGetE_eq (c : Cfg) (hg : c.Good) (k : Kernel) (pid e : Nat) :
   simp only [cextAffinityGetE, cextAffinityGet]
   cases hs : sysSchedGetaffinity k pid with
   | ok n =>
-    have h := nativeGetter_never c.affGet hg.affGet (.ok 0)
+    have h := nativeGetter_never c.affGet (Or.inl (by rw [hg.affGet]; decide)) (.ok 0)
       (by intro v hv; simp only [Except.ok.injEq] at hv; subst hv; decide) e
     simp [h, ofSys]
   | error er =>
-    have h := nativeGetter_never c.affGet hg.affGet (.error er) (by intro v hv; cases hv) e
+    have h := nativeGetter_never c.affGet (Or.inl (by rw [hg.affGet]; decide)) (.error er) (by intro v hv; cases hv) e
     simp [h, ofSys]
 
 /-- with the file read now and without the EINVAL fall-through, `cpuAffinitySetWith` is `cpuAffinitySet` -/
@@ -148,6 +148,7 @@ theorem wrapExc_valueError {pid : Nat} {e : NErr} (h : wrapExc pid e = .valueErr
   | valueError => rfl
   | overflowError => simp [wrapExc] at h
   | undefinedC => simp [wrapExc] at h
+  | hang => simp [wrapExc] at h
 
 /-- `cpu_affinity_set` answered: then the native layer succeeded, or refused in one of the two diagnosed ways -/
 theorem cpuAffinitySet_cases (k : Kernel) (pid : Nat) (l : List Int) (o : Out) (k' : Kernel)
